@@ -270,6 +270,13 @@ def cases(tier, seed):
                "prefix": [rand_step(rng, "single", npl)
                           for _ in range(rng.randint(0, 2 if thorough else 1))],
                "fan": [rand_step(rng, "single", npl) for _ in range(16 if thorough else 8)]}
+    # (d1) tens of plots in one flow (more conversions outstanding at once than a pool of
+    # processes would take)
+    for j, npl in enumerate([34, 40] if not thorough else [33, 34, 40, 48, 70]):
+        rng = gen.rng_for(seed, "C19", "many", j)
+        yield {"k": "hist", "pipe": "single", "n": npl, "set": DEFAULT_SET, "prefix": [],
+               "fan": [{"data": [int(rng.random() < 0.4) for _ in range(npl)], "tmpl": 0,
+                        "del": []}]}
     # (d2) the same with a source slower than the converters (conversions of earlier values
     # have finished when later values arrive), emphasis on deleted pdf files
     nsample = 120 if thorough else 10
